@@ -7,7 +7,9 @@ VERIF = os.path.dirname(os.path.dirname(os.path.abspath(__file__)))
 
 # prefixes: expressions that evaluate without error to a NON-NULL value on the document {"a": [1, 2]}, followed by a pipe
 prefixes = ["", "@ | ", "`\"é€\"` | ", "a\n|\n", "'\U0001F600é' |\n  ", "length(`[1]`) | ", "[@, `1`][0] |\n'é'\n| ",
-            "not_null(`null`, length('éé'))\n| "]
+            "not_null(`null`, length('éé'))\n| ",
+            # long lines: more than 128 (and 256) characters before the error, single- and multi-byte
+            "'" + "a" * 140 + "' | ", "'" + "é" * 70 + "\U0001F600" * 70 + "' |\n'x' | " + "to_array(@) | " * 10, "'" + "€" * 300 + "' | "]
 # sites: name, what precedes the failing call inside the form, the call name, the text from "(" to the end of the form,
 # expected kind class, where the error must point ("call": the "(" of `call`)
 sites = [
@@ -34,6 +36,24 @@ sites = [
   dict(n="maxby_outer", pre="", call="max_by", rest="(`[{\"a\": 1}, {\"a\": []}]`, &not_null(a))", kind="type"),
   dict(n="minby_outer_first", pre="", call="min_by", rest="(`[{\"a\": null}]`, &to_array(a)[0])", kind="type"),
   dict(n="sortby_outer_nested", pre="length(", call="sort_by", rest="(`[{\"a\": 1}, {\"a\": true}]`, &not_null(a, length('é'))))", kind="type"),
+  # the by-function fails after its expression reference evaluated every other kind of node (slice, index, filter, projections,
+  # multi-select, pipe, boolean operators, comparison)
+  dict(n="maxby_after_slice", pre="", call="max_by", rest="(`[{\"a\": [1, 2]}, {\"a\": [\"x\", 3]}]`, &a[0:1] | [0])", kind="type"),
+  dict(n="maxby_after_slice2", pre="", call="sort_by", rest="(`[{\"a\": [1, 2]}, {\"a\": [\"x\", 3]}]`, &a[::1][0])", kind="type"),
+  dict(n="maxby_after_slice3", pre="", call="min_by", rest="(`[{\"a\": [1, 2]}, {\"a\": [\"x\", 3]}]`, &a[:-1][0])", kind="type"),
+  dict(n="maxby_after_filter", pre="", call="max_by", rest="(`[{\"a\": [1, 2]}, {\"a\": [\"x\", 3]}]`, &a[?@][0])", kind="type"),
+  dict(n="maxby_after_star", pre="", call="sort_by", rest="(`[{\"a\": [1, 2]}, {\"a\": [\"x\", 3]}]`, &a[*] | [0])", kind="type"),
+  dict(n="maxby_after_flatten", pre="", call="min_by", rest="(`[{\"a\": [1, 2]}, {\"a\": [\"x\", 3]}]`, &a[] | [0])", kind="type"),
+  dict(n="maxby_after_hash", pre="", call="max_by", rest="(`[{\"a\": [1, 2]}, {\"a\": [\"x\", 3]}]`, &{k: a}.k[0])", kind="type"),
+  dict(n="maxby_after_or", pre="", call="sort_by", rest="(`[{\"a\": [1, 2]}, {\"a\": [\"x\", 3]}]`, &a[0] || a)", kind="type"),
+  dict(n="maxby_after_and", pre="", call="min_by", rest="(`[{\"a\": [1, 2]}, {\"a\": [\"x\", 3]}]`, &a[1] && a[0])", kind="type"),
+  dict(n="maxby_after_not", pre="", call="max_by", rest="(`[{\"a\": [1, 2]}, {\"a\": [\"x\", 3]}]`, &!(!a[0]) && a[0])", kind="type"),
+  dict(n="maxby_after_pipe", pre="", call="sort_by", rest="(`[{\"a\": [1, 2]}, {\"a\": [\"x\", 3]}]`, &a | [0])", kind="type"),
+  dict(n="maxby_after_paren", pre="", call="min_by", rest="(`[{\"a\": [1, 2]}, {\"a\": [\"x\", 3]}]`, &(a)[0])", kind="type"),
+  dict(n="maxby_after_cmp", pre="", call="max_by", rest="(`[{\"a\": [1, 2]}, {\"a\": [\"x\", 3]}]`, &`1` < `2` && a[0])", kind="type"),
+  dict(n="maxby_after_vals", pre="", call="sort_by", rest="(`[{\"a\": [1, 2]}, {\"a\": [\"x\", 3]}]`, &{k: a[0]}.* | [0])", kind="type"),
+  dict(n="after_ok_slice", pre="", call="abs", rest="(a[0:1][0], `2`)", kind="arity"),
+  dict(n="after_ok_slice2", pre="not_null(a[1:], ", call="abs", rest="(`true`))", kind="type"),
   # a later failure in the same outer call after an earlier argument contained a successful call
   dict(n="after_ok_call", pre="", call="abs", rest="(not_null(length('a'), `1`), `2`)", kind="arity"),
 ]
